@@ -30,8 +30,20 @@ static int g_valid;            /* ghost: verdict of verify */
 static char *g_buf; static size_t g_cap;
 
 /* the summary of verify-in-print-mode */
+static int g_print_mode;       /* 1: the wrapper under test is binson_parser_print */
 static bool vc_verify_dispatch(binson_parser *parser)
 {
+    if (g_print_mode) {
+        /* summary of verify with the print callback installed: the wrapper must have installed _binson_print_cb and a
+         * live one-byte state that starts at 0 (the pre-condition of the callback's contract); the callbacks only
+         * change that byte (their proved frame) */
+        __CPROVER_assert(parser->cb == _binson_print_cb, "print installs its callback before verify");                /*@ print-callback-installed */
+        uint8_t *ps = (uint8_t *) parser->cb_context;
+        __CPROVER_assert(__CPROVER_rw_ok(ps, 1), "the print state is a live object");                                 /*@ print-ctx-live */
+        __CPROVER_assert(*ps == 0, "the print state starts at 0");                                                    /*@ print-ctx-initial */
+        *ps = (uint8_t) nondet_size_t();
+        return g_valid != 0;
+    }
     __CPROVER_assert(parser->cb == _binson_to_string_cb, "to_string installs its callback before verify");            /*@ callback-installed */
     struct _to_string_ctx *ctx = (struct _to_string_ctx *) parser->cb_context;
     __CPROVER_assert(__CPROVER_rw_ok(ctx, sizeof(*ctx)), "the callback context is a live object");                    /*@ ctx-live */
@@ -69,6 +81,21 @@ void h_binson_parser_to_string(void)
         __CPROVER_assert(!r || *size == g_total, "on success *size is the text length");                               /*@ size-on-success */
         __CPROVER_assert(g_buf != NULL || !r, "a NULL buffer never succeeds");                                         /*@ null-query-false */
     }
+    if (r) { __CPROVER_assert(0, "vacuity control: success reachable"); }
+    if (!r) { __CPROVER_assert(0, "vacuity control: failure reachable"); }
+}
+
+/* binson_parser_print: the other wrapper around verify-in-print-mode. Nothing of the print run stays behind in the
+ * parser object (callback and context removed on every path), the verdict is verify's. */
+void h_binson_parser_print(void)
+{
+    binson_parser *p = malloc(sizeof(*p));
+    __CPROVER_assume(p != NULL);
+    g_valid = nondet_bool();
+    g_print_mode = 1;
+    bool r = binson_parser_print(p);
+    __CPROVER_assert(p->cb == NULL && p->cb_context == NULL, "callback and context are removed again");               /*@ callback-removed */
+    __CPROVER_assert(r == (g_valid != 0), "print answers what verify answers");                                        /*@ print-verdict */
     if (r) { __CPROVER_assert(0, "vacuity control: success reachable"); }
     if (!r) { __CPROVER_assert(0, "vacuity control: failure reachable"); }
 }
